@@ -110,6 +110,15 @@ def gen_spec(rng, ne16=False, max_blocks=4, first=None):
     return nodes
 
 
+def is_dw(nd):
+    """depthwise for the library: groups == in_channels == out_channels (a full 1->1 conv. qualifies)"""
+    return nd['k'] == 'dw' or (nd['k'] == 'conv' and nd['cin'] == 1 and nd['cout'] == 1)
+
+
+def kind(nd):
+    return 'dw' if is_dw(nd) else nd['k']
+
+
 def shapes(nodes):
     """static (channels, hw) of every node's output (hw = 0 after flatten)"""
     out = []
@@ -202,10 +211,10 @@ def coq_ir(nodes):
         k = nd['k']
         if k == 'in':
             out.append('NIn %s' % coq(Nat(nd['c'])))
+        elif is_dw(nd):
+            out.append('NDw %s %s' % (coq(Nat(nd['src'])), coq(Nat(nd.get('c', 1)))))
         elif k == 'conv':
             out.append('NConv %s %s %s' % (coq(Nat(nd['src'])), coq(Nat(nd['cin'])), coq(Nat(nd['cout']))))
-        elif k == 'dw':
-            out.append('NDw %s %s' % (coq(Nat(nd['src'])), coq(Nat(nd['c']))))
         elif k == 'lin':
             out.append('NLin %s %s %s' % (coq(Nat(nd['src'])), coq(Nat(nd['cin'])), coq(Nat(nd['cout']))))
         elif k in ('bn', 'relu', 'pool'):
